@@ -360,15 +360,36 @@ def tas (o : Oracle) (lo hi body : Nat) (isRight : Bool) (pls : Option Nat) : Bo
 def leafCtx (c1 : Ctx) (b' lo hi : Nat) (fin' hasSS : Bool) : Ctx :=
   if fin' then c1.finalScan b' lo hi else if hasSS then c1.preScan b' lo hi else c1
 
-/-- `finish_scan::execute` on the results of the two children -/
-def finishRes (lo hi : Nat) (fin' hasSS : Bool) (Lr Rr : R1) (z : Option Nat) : R1 :=
-  ⟨(if Rr.zombie.isSome && hasSS then
-      match Rr.sum, Lr.sum with
-      | some rs, some ls => Rr.ctx.rjoin rs ls
-      | _, _ => Rr.ctx.fail
-    else Rr.ctx),
-   (if Rr.zombie.isSome || Rr.ret != .nil then STree.node lo hi Lr.sum (fin' && (Lr.ret == .nil)) Lr.ret Rr.ret else .nil),
-   (if hasSS then Rr.sum else none), z⟩
+/-! #### the GENERATED guard of `start_scan::execute`
+
+`Generated.C06.scanTreatAsStolen` is the translation of the source text of `bool treat_as_stolen = …`; everything below
+is proved from these two facts about it, so a guard that is not logically equivalent to
+`is_right_child && (is_stolen(ed) || &m_body != m_left_sum)` — e.g. one that drops either disjunct — or that reads
+`m_left_sum` in a really stolen task does not get past this point. -/
+
+theorem gen_tas (isRight s n : Bool) : Generated.C06.scanTreatAsStolen isRight s n = (isRight && (s || n)) := by
+  cases isRight <;> cases s <;> cases n <;> rfl
+
+/-- `m_parent->m_result.m_left_sum` is never read by a really stolen task (the short-circuit `is_stolen(ed) || …`)
+nor by a task that is not a right child (the short-circuit `m_is_right_child && …`; the root has no parent) -/
+theorem gen_no_race (isRight s n : Bool) : ((s || !isRight) && Generated.C06.scanGuardReadsLeftSum isRight s n) = false := by
+  cases isRight <;> cases s <;> cases n <;> rfl
+
+/-- the two children of a task that splits, in the order the oracle dictates (`early`: right child first) -/
+def kids (g : Nat) (o : Oracle) (fuel lo hi b' : Nat) (fin' hasSS : Bool) (c1 : Ctx) (z : Option Nat) : R1 :=
+  if o.early (mid lo hi) hi then
+    finishRes lo hi fin' hasSS
+      (scanTask g o fuel lo (mid lo hi) b' fin' true false none (scanTask g o fuel (mid lo hi) hi b' fin' hasSS true none c1).ctx)
+      ⟨(scanTask g o fuel lo (mid lo hi) b' fin' true false none (scanTask g o fuel (mid lo hi) hi b' fin' hasSS true none c1).ctx).ctx,
+       (scanTask g o fuel (mid lo hi) hi b' fin' hasSS true none c1).ret,
+       (scanTask g o fuel (mid lo hi) hi b' fin' hasSS true none c1).sum,
+       (scanTask g o fuel (mid lo hi) hi b' fin' hasSS true none c1).zombie⟩ z
+  else
+    finishRes lo hi fin' hasSS
+      (scanTask g o fuel lo (mid lo hi) b' fin' true false none c1)
+      (scanTask g o fuel (mid lo hi) hi b' fin' hasSS true
+        (scanTask g o fuel lo (mid lo hi) b' fin' true false none c1).sum
+        (scanTask g o fuel lo (mid lo hi) b' fin' true false none c1).ctx) z
 
 theorem scanTask_zero (g : Nat) (o : Oracle) (lo hi body : Nat) (isFinal hasSS isRight : Bool) (pls : Option Nat) (c : Ctx) :
     scanTask g o 0 lo hi body isFinal hasSS isRight pls c =
@@ -376,6 +397,7 @@ theorem scanTask_zero (g : Nat) (o : Oracle) (lo hi body : Nat) (isFinal hasSS i
         ⟨leafCtx (c.alloc body).1 c.heap.length lo hi false hasSS, .nil, if hasSS then some c.heap.length else none, some c.heap.length⟩
        else ⟨leafCtx c body lo hi isFinal hasSS, .nil, if hasSS then some body else none, none⟩) := by
   unfold scanTask tas leafCtx
+  simp only [gen_tas, gen_no_race, Bool.false_eq_true, if_false]
   cases h : (isRight && (o.stolen lo hi || (some body != pls))) <;> simp
 
 theorem scanTask_succ (g : Nat) (o : Oracle) (fuel lo hi body : Nat) (isFinal hasSS isRight : Bool) (pls : Option Nat) (c : Ctx) :
@@ -383,30 +405,18 @@ theorem scanTask_succ (g : Nat) (o : Oracle) (fuel lo hi body : Nat) (isFinal ha
       (if tas o lo hi body isRight pls then
         (if !(decide (g < hi - lo)) || o.exec lo hi then
           ⟨leafCtx (c.alloc body).1 c.heap.length lo hi false hasSS, .nil, if hasSS then some c.heap.length else none, some c.heap.length⟩
-         else
-          finishRes lo hi false hasSS
-            (scanTask g o fuel lo (mid lo hi) c.heap.length false true false none (c.alloc body).1)
-            (scanTask g o fuel (mid lo hi) hi c.heap.length false hasSS true
-              (scanTask g o fuel lo (mid lo hi) c.heap.length false true false none (c.alloc body).1).sum
-              (scanTask g o fuel lo (mid lo hi) c.heap.length false true false none (c.alloc body).1).ctx)
-            (some c.heap.length))
+         else kids g o fuel lo hi c.heap.length false hasSS (c.alloc body).1 (some c.heap.length))
        else
         (if isRight || !(decide (g < hi - lo)) || o.exec lo hi then
           ⟨leafCtx c body lo hi isFinal hasSS, .nil, if hasSS then some body else none, none⟩
-         else
-          finishRes lo hi isFinal hasSS
-            (scanTask g o fuel lo (mid lo hi) body isFinal true false none c)
-            (scanTask g o fuel (mid lo hi) hi body isFinal hasSS true
-              (scanTask g o fuel lo (mid lo hi) body isFinal true false none c).sum
-              (scanTask g o fuel lo (mid lo hi) body isFinal true false none c).ctx)
-            none)) := by
+         else kids g o fuel lo hi body isFinal hasSS c none)) := by
   rw [scanTask]
-  unfold tas leafCtx finishRes
+  unfold tas leafCtx kids
+  simp only [gen_tas, gen_no_race, Bool.false_eq_true, if_false]
   cases h : (isRight && (o.stolen lo hi || (some body != pls)))
   · simp only [Bool.false_eq_true, if_false, Bool.not_false, Bool.and_true]
-    split <;> rfl
   · simp only [if_true, Bool.not_true, Bool.and_false, Bool.false_or, alloc_snd]
-    split <;> rfl
+    rfl
 
 /-- outcome of a task (and everything below it) whose effective body is `b'` (value `v0` on entry),
 effective finality `fin'`, started in context `c1` (after the possible zombie allocation) -/
@@ -527,11 +537,7 @@ theorem finish_stolen (g L lo hi b' : Nat) (fin' hasSS : Bool) (c1 : Ctx) (Lr Rr
     intro x hx
     rw [hR.frame x (by simp; omega) (by omega), alloc_val, if_neg (by omega)]
   -- the context after finish_scan::execute
-  generalize hcf : (if Rr.zombie.isSome && hasSS then
-      match Rr.sum, Lr.sum with
-      | some rs, some ls => Rr.ctx.rjoin rs ls
-      | _, _ => Rr.ctx.fail
-    else Rr.ctx) = cf
+  generalize hcf : (finishRes lo hi fin' hasSS Lr Rr z).ctx = cf
   have hres : finishRes lo hi fin' hasSS Lr Rr z =
       ⟨cf, .node lo hi Lr.sum (fin' && (Lr.ret == .nil)) Lr.ret Rr.ret, if hasSS then Rr.sum else none, z⟩ := by
     subst hcf; simp [finishRes, hRz]
@@ -542,7 +548,7 @@ theorem finish_stolen (g L lo hi b' : Nat) (fin' hasSS : Bool) (c1 : Ctx) (Lr Rr
       (∃ evs, cf.log = Rr.ctx.log ++ evs ∧ finals evs = []) := by
     cases hasSS with
     | false =>
-        simp only [Bool.and_false, Bool.false_eq_true, if_false] at hcf
+        simp only [finishRes, Bool.and_false, Bool.false_eq_true, if_false] at hcf
         subst hcf
         exact ⟨none, hR.sumNone rfl, fun h => (by cases h), fun _ => rfl, rfl, rfl, fun _ _ => rfl, [], by simp, rfl⟩
     | true =>
@@ -551,7 +557,7 @@ theorem finish_stolen (g L lo hi b' : Nat) (fin' hasSS : Bool) (c1 : Ctx) (Lr Rr
           rcases r3 with r3 | r3
           · omega
           · simp at r3; omega
-        simp only [hRz, Option.isSome_some, Bool.and_true, if_true, r1, s1] at hcf
+        simp only [finishRes, hRz, Option.isSome_some, Bool.and_true, if_true, r1, s1] at hcf
         subst hcf
         refine ⟨some rs, r1, fun _ => ⟨rs, rfl, hrs, r2, hR.sumNotIn rs r1, ?_⟩, fun h => (by cases h), rfl, by simp, ?_,
           [.rjoin rs lsb], by simp, rfl⟩
@@ -675,6 +681,171 @@ theorem finish_stolen (g L lo hi b' : Nat) (fin' hasSS : Bool) (c1 : Ctx) (Lr Rr
         · have := (hLb rs h).2.1; omega
         · exact q4 h
 
+/-- RE-ENTRANT BODY: the right child ran FIRST (popped by its owner inside a leaf body of the left part, before
+that body changed anything), treated as stolen because `m_left_sum` was still null: it worked on a fresh
+zombie body, the left part then ran in the context it left behind; the sum_node is kept. -/
+theorem finish_early (g L lo hi b' : Nat) (fin' hasSS : Bool) (c1 : Ctx) (Lr Rr : R1) (z : Option Nat)
+    (hm : lo < mid lo hi ∧ mid lo hi < hi) (hdiv : g < hi - lo) (hb : b' < c1.heap.length) (hb0 : 0 < b')
+    (hfinL : fin' = true → lo = L)
+    (hR : P1 g L (mid lo hi) hi c1.heap.length [] false hasSS (c1.alloc b').1 Rr)
+    (hRz : Rr.zombie = some c1.heap.length)
+    (hL : P1 g L lo (mid lo hi) b' [] fin' true Rr.ctx Lr) :
+    P1 g L lo hi b' [] fin' hasSS c1 (finishRes lo hi fin' hasSS Lr ⟨Lr.ctx, Rr.ret, Rr.sum, Rr.zombie⟩ z) := by
+  obtain ⟨lsb, s1, s2, s3, s4⟩ := hL.sumSS rfl
+  have hvL : Lr.ctx.val lsb = rng lo (mid lo hi) := by simpa using s4
+  have hlenR : c1.heap.length + 1 ≤ Rr.ctx.heap.length := by simpa using hR.mono
+  have hlenL : Rr.ctx.heap.length ≤ Lr.ctx.heap.length := hL.mono
+  -- the right child's bodies (and all old bodies but b') survive the left part's run
+  have hkeep : ∀ x : Nat, x < Rr.ctx.heap.length → x ≠ b' → Lr.ctx.val x = Rr.ctx.val x :=
+    fun x hx hne => hL.frame x hx hne
+  generalize hcf : (finishRes lo hi fin' hasSS Lr ⟨Lr.ctx, Rr.ret, Rr.sum, Rr.zombie⟩ z).ctx = cf
+  have hres : finishRes lo hi fin' hasSS Lr ⟨Lr.ctx, Rr.ret, Rr.sum, Rr.zombie⟩ z =
+      ⟨cf, .node lo hi Lr.sum (fin' && (Lr.ret == .nil)) Lr.ret Rr.ret, if hasSS then Rr.sum else none, z⟩ := by
+    subst hcf; simp [finishRes, hRz]
+  have hcf' : ∃ rsopt : Option Nat, Rr.sum = rsopt ∧ (hasSS = true → ∃ rs : Nat, rsopt = some rs ∧ c1.heap.length ≤ rs ∧
+        rs < Rr.ctx.heap.length ∧ rs ∉ bodies Rr.ret ∧ cf.val rs = rng lo hi) ∧ (hasSS = false → rsopt = none) ∧
+      cf.err = Lr.ctx.err ∧ cf.heap.length = Lr.ctx.heap.length ∧
+      (∀ x : Nat, some x ≠ rsopt → cf.val x = Lr.ctx.val x) ∧
+      (∃ evs, cf.log = Lr.ctx.log ++ evs ∧ finals evs = []) := by
+    cases hasSS with
+    | false =>
+        simp only [finishRes, Bool.and_false, Bool.false_eq_true, if_false] at hcf
+        subst hcf
+        exact ⟨none, hR.sumNone rfl, fun h => (by cases h), fun _ => rfl, rfl, rfl, fun _ _ => rfl, [], by simp, rfl⟩
+    | true =>
+        obtain ⟨rs, r1, r2, r3, r4⟩ := hR.sumSS rfl
+        have hrs : c1.heap.length ≤ rs := by
+          rcases r3 with r3 | r3
+          · omega
+          · simp at r3; omega
+        simp only [finishRes, hRz, Option.isSome_some, Bool.and_true, if_true, r1, s1] at hcf
+        subst hcf
+        refine ⟨some rs, r1, fun _ => ⟨rs, rfl, hrs, r2, hR.sumNotIn rs r1, ?_⟩, fun h => (by cases h), rfl, by simp, ?_,
+          [.rjoin rs lsb], by simp, rfl⟩
+        · rw [rjoin_val, if_pos ⟨rfl, by omega⟩, hvL, hkeep rs r2 (by omega), r4]
+          simp [rng_split lo (mid lo hi) hi (by omega) (by omega)]
+        · intro x hx
+          rw [rjoin_val, if_neg (by intro h; exact hx (by rw [h.1]))]
+  obtain ⟨rsopt, hrsum, hrsS, hrsN, cfe, cfl, cff, evsf, cflog, cffin⟩ := hcf'
+  rw [hres, s1, hrsum]
+  -- ids: the left part's kept bodies are b' or newer than everything of the right child
+  have hLb : ∀ x : Nat, x ∈ bodies Lr.ret → 0 < x ∧ x < Lr.ctx.heap.length ∧ (x = b' ∨ Rr.ctx.heap.length ≤ x) := hL.fresh
+  have hRb : ∀ x : Nat, x ∈ bodies Rr.ret → c1.heap.length ≤ x ∧ x < Rr.ctx.heap.length := by
+    intro x hx
+    obtain ⟨_, f2, f3⟩ := hR.fresh x hx
+    refine ⟨?_, f2⟩
+    rcases f3 with f3 | f3
+    · omega
+    · simp at f3; omega
+  have hne_rs : ∀ x : Nat, (x = b' ∨ Rr.ctx.heap.length ≤ x ∨ x < c1.heap.length) → some x ≠ rsopt := by
+    intro x hx h
+    cases hss : hasSS with
+    | false => rw [hrsN hss] at h; cases h
+    | true =>
+        obtain ⟨rs, q1, q2, q3, _⟩ := hrsS hss
+        rw [q1] at h
+        have := Option.some.inj h
+        omega
+  have hcfR : ∀ x : Nat, x ∈ bodies Rr.ret → cf.val x = Rr.ctx.val x := by
+    intro x hx
+    have hx' := hRb x hx
+    rw [cff x ?_, hkeep x hx'.2 (by omega)]
+    intro h
+    cases hss : hasSS with
+    | false => rw [hrsN hss] at h; cases h
+    | true =>
+        obtain ⟨rs, q1, _, _, q4, _⟩ := hrsS hss
+        rw [q1] at h
+        have := Option.some.inj h
+        subst this
+        exact q4 hx
+  refine ⟨by rw [cfe, hL.err, hR.err]; simp, by rw [cfl]; omega, ?_, ?_, ?_, ?_, ?_, ?_, ?_, ?_, ?_, ?_⟩
+  · -- frame
+    intro x hx hne
+    rw [cff x (hne_rs x (Or.inr (Or.inr hx))), hkeep x (by omega) hne, hR.frame x (by simp; omega) (by omega),
+      alloc_val, if_neg (by omega)]
+  · -- sum slot
+    intro hss
+    obtain ⟨rs, q1, q2, q3, q4, q5⟩ := hrsS hss
+    exact ⟨rs, by simp [hss, q1], by rw [cfl]; omega, Or.inr (by omega), by simpa using q5⟩
+  · intro hss; simp [hss]
+  · -- the kept node's sum body is not the left body
+    intro h
+    exfalso
+    cases hss : hasSS with
+    | false => simp [hss] at h
+    | true =>
+        obtain ⟨rs, q1, q2, _⟩ := hrsS hss
+        simp [hss, q1] at h
+        omega
+  · intro _ h; cases h
+  · -- final-scan events of pass 1: only the left part can have any
+    obtain ⟨e1, l1, l2, l3⟩ := hL.fins
+    obtain ⟨e2, r1, _, r3⟩ := hR.fins
+    refine ⟨[.split c1.heap.length b'] ++ (e2 ++ (e1 ++ evsf)), ?_, ?_, ?_⟩
+    · simp only; rw [cflog, l1, r1, alloc_log]; simp
+    · intro hf
+      have a1 := l2 hf
+      simp only [finals_append, r3 rfl, cffin, finals_single_split, List.append_nil, List.nil_append]
+      cases hn : (Lr.ret == STree.nil) with
+      | true =>
+          have : Lr.ret = .nil := by simpa using hn
+          rw [this] at a1
+          simpa [done1, hf, this] using a1
+      | false => simpa [done1, hf, hn] using a1
+    · intro hf
+      simp only [finals_append, r3 rfl, cffin, finals_single_split, l3 hf]; rfl
+  · -- Good
+    simp only [Good]
+    refine ⟨trivial, trivial, hdiv, ⟨lsb, rfl, by rw [cff lsb (hne_rs lsb (by omega)), hvL], ?_⟩, hfinL, ?_, ?_, ?_, ?_⟩
+    · intro hf hl
+      have hne : Lr.ret ≠ .nil := by
+        intro e; simp [hf, e] at hl
+      intro e
+      exact hne (hL.seq (by rw [s1, e]))
+    · intro hf; simp [hf]
+    · intro hf hl e; simp [hf, e] at hl
+    · intro _
+      exact Good_frame g Lr.ctx cf L b' Lr.ret fin' lo (mid lo hi)
+        (fun x hx => cff x (hne_rs x (by have := (hLb x hx).2.2; omega))) hL.good
+    · exact Good_frame g Rr.ctx cf L b' Rr.ret false (mid lo hi) hi hcfR (Good_bA g Rr.ctx L _ b' Rr.ret _ _ hR.good)
+  · -- ids
+    intro x hx
+    rcases mem_bodies_node.mp hx with h | h | h
+    · have := Option.some.inj h
+      subst this
+      exact ⟨by omega, by rw [cfl]; omega, by omega⟩
+    · obtain ⟨f1, f2, f3⟩ := hLb x h
+      exact ⟨f1, by rw [cfl]; exact f2, by omega⟩
+    · obtain ⟨f1, f2⟩ := hRb x h
+      exact ⟨by omega, by rw [cfl]; omega, Or.inr f1⟩
+  · -- no duplicates
+    simp only [bodies, List.singleton_append, List.nodup_cons, List.mem_append, not_or, List.nodup_append]
+    refine ⟨⟨hL.sumNotIn lsb s1, fun h => by have := hRb lsb h; omega⟩, hL.nodup, hR.nodup, ?_⟩
+    intro x hx y hy e
+    subst e
+    have := (hLb x hx).2.2
+    have := hRb x hy
+    omega
+  · -- the sum body is none of the kept ones
+    intro sb hsb
+    cases hss : hasSS with
+    | false => simp [hss] at hsb
+    | true =>
+        obtain ⟨rs, q1, q2, q3, q4, _⟩ := hrsS hss
+        simp only [hss, if_true, q1] at hsb
+        have := Option.some.inj hsb
+        subst this
+        intro hmem
+        rcases mem_bodies_node.mp hmem with h | h | h
+        · have := Option.some.inj h; omega
+        · have := (hLb rs h).2.2; omega
+        · exact q4 h
+
+theorem kids_zombie (g : Nat) (o : Oracle) (fuel lo hi b' : Nat) (fin' hasSS : Bool) (c1 : Ctx) (z : Option Nat) :
+    (kids g o fuel lo hi b' fin' hasSS c1 z).zombie = z := by
+  unfold kids; split <;> rfl
+
 theorem tas_false_right {o : Oracle} {lo hi b : Nat} {pls : Option Nat} (h : tas o lo hi b true pls = false) :
     pls = some b := by
   simp [tas] at h
@@ -704,37 +875,52 @@ theorem scanTask_spec (g : Nat) (hg : 1 ≤ g) (o : Oracle) (L : Nat) :
       -- the two children, given the effective body / finality / context
       have children : ∀ (b' : Nat) (fin' : Bool) (c1 : Ctx) (z : Option Nat), g < hi - lo → b' < c1.heap.length → 0 < b' →
           c1.val b' = [] → (fin' = true → lo = L) →
-          P1 g L lo hi b' [] fin' hasSS c1
-            (finishRes lo hi fin' hasSS (scanTask g o fuel lo (mid lo hi) b' fin' true false none c1)
-              (scanTask g o fuel (mid lo hi) hi b' fin' hasSS true
-                (scanTask g o fuel lo (mid lo hi) b' fin' true false none c1).sum
-                (scanTask g o fuel lo (mid lo hi) b' fin' true false none c1).ctx) z) := by
+          P1 g L lo hi b' [] fin' hasSS c1 (kids g o fuel lo hi b' fin' hasSS c1 z) := by
         intro b' fin' c1 z hdiv hb' hb'0 hv hfl
         have hm := mid_bounds hg hdiv
         have hmid : mid lo hi - lo ≤ fuel ∧ hi - mid lo hi ≤ fuel := by omega
-        have hLs := (ih lo (mid lo hi) b' fin' true false none c1 hm.1 hmid.1 hL hb' hb'0
-          (fun hf _ => by rw [hv, hfl hf]; simp [rng]) (fun _ => ⟨hv, hfl⟩)).2 (tas_not_right o _ _ _ _)
-        generalize scanTask g o fuel lo (mid lo hi) b' fin' true false none c1 = Lr at hLs ⊢
-        obtain ⟨hLP, _, _⟩ := hLs
-        rw [hv] at hLP
-        have hb'L : b' < Lr.ctx.heap.length := Nat.lt_of_lt_of_le hb' hLP.mono
-        have hRs := ih (mid lo hi) hi b' fin' hasSS true Lr.sum Lr.ctx hm.2 hmid.2 (by omega) hb'L hb'0
-          (fun hf ht => by
-            have hs := tas_false_right ht
-            obtain ⟨sb, s1, _, _, s4⟩ := hLP.sumSS rfl
-            rw [hs] at s1
-            have := Option.some.inj s1
-            subst this
-            rw [s4, hfl hf]; simp)
-          (fun h => by cases h)
-        generalize scanTask g o fuel (mid lo hi) hi b' fin' hasSS true Lr.sum Lr.ctx = Rr at hRs ⊢
-        cases htR : tas o (mid lo hi) hi b' true Lr.sum with
-        | false =>
-            obtain ⟨hRP, hRz, hRn⟩ := hRs.2 htR
-            exact finish_seq g L lo hi b' fin' hasSS c1 Lr Rr z hm hLP (tas_false_right htR) hRP (hRn rfl) hRz
-        | true =>
-            obtain ⟨hRP, hRz⟩ := hRs.1 htR
-            exact finish_stolen g L lo hi b' fin' hasSS c1 Lr Rr z hm hdiv hb' hb'0 hfl hLP hRP hRz
+        unfold kids
+        split
+        · -- re-entrant body: the right child runs first and reads a null `m_left_sum`
+          have htR : tas o (mid lo hi) hi b' true none = true := by simp [tas]
+          have hRs := (ih (mid lo hi) hi b' fin' hasSS true none c1 hm.2 hmid.2 (by omega) hb' hb'0
+            (fun _ ht => by rw [htR] at ht; cases ht) (fun h => by cases h)).1 htR
+          generalize scanTask g o fuel (mid lo hi) hi b' fin' hasSS true none c1 = Rr at hRs ⊢
+          obtain ⟨hRP, hRz⟩ := hRs
+          have hvR : Rr.ctx.val b' = [] := by
+            rw [hRP.frame b' (by simp; omega) (by omega), alloc_val, if_neg (by omega), hv]
+          have hb'R : b' < Rr.ctx.heap.length := by
+            have := hRP.mono
+            simp at this; omega
+          have hLs := (ih lo (mid lo hi) b' fin' true false none Rr.ctx hm.1 hmid.1 hL hb'R hb'0
+            (fun hf _ => by rw [hvR, hfl hf]; simp [rng]) (fun _ => ⟨hvR, hfl⟩)).2 (tas_not_right o _ _ _ _)
+          generalize scanTask g o fuel lo (mid lo hi) b' fin' true false none Rr.ctx = Lr at hLs ⊢
+          obtain ⟨hLP, _, _⟩ := hLs
+          rw [hvR] at hLP
+          exact finish_early g L lo hi b' fin' hasSS c1 Lr Rr z hm hdiv hb' hb'0 hfl hRP hRz hLP
+        · have hLs := (ih lo (mid lo hi) b' fin' true false none c1 hm.1 hmid.1 hL hb' hb'0
+            (fun hf _ => by rw [hv, hfl hf]; simp [rng]) (fun _ => ⟨hv, hfl⟩)).2 (tas_not_right o _ _ _ _)
+          generalize scanTask g o fuel lo (mid lo hi) b' fin' true false none c1 = Lr at hLs ⊢
+          obtain ⟨hLP, _, _⟩ := hLs
+          rw [hv] at hLP
+          have hb'L : b' < Lr.ctx.heap.length := Nat.lt_of_lt_of_le hb' hLP.mono
+          have hRs := ih (mid lo hi) hi b' fin' hasSS true Lr.sum Lr.ctx hm.2 hmid.2 (by omega) hb'L hb'0
+            (fun hf ht => by
+              have hs := tas_false_right ht
+              obtain ⟨sb, s1, _, _, s4⟩ := hLP.sumSS rfl
+              rw [hs] at s1
+              have := Option.some.inj s1
+              subst this
+              rw [s4, hfl hf]; simp)
+            (fun h => by cases h)
+          generalize scanTask g o fuel (mid lo hi) hi b' fin' hasSS true Lr.sum Lr.ctx = Rr at hRs ⊢
+          cases htR : tas o (mid lo hi) hi b' true Lr.sum with
+          | false =>
+              obtain ⟨hRP, hRz, hRn⟩ := hRs.2 htR
+              exact finish_seq g L lo hi b' fin' hasSS c1 Lr Rr z hm hLP (tas_false_right htR) hRP (hRn rfl) hRz
+          | true =>
+              obtain ⟨hRP, hRz⟩ := hRs.1 htR
+              exact finish_stolen g L lo hi b' fin' hasSS c1 Lr Rr z hm hdiv hb' hb'0 hfl hLP hRP hRz
       refine ⟨?_, ?_⟩
       · intro ht
         rw [if_pos ht]
@@ -750,7 +936,7 @@ theorem scanTask_spec (g : Nat) (hg : 1 ≤ g) (o : Oracle) (L : Nat) :
             have := hleaf.1
             omega
           exact ⟨children c.heap.length false (c.alloc body).1 (some c.heap.length) hdiv (by simp) (by omega) hvz
-            (fun h => by cases h), rfl⟩
+            (fun h => by cases h), kids_zombie ..⟩
       · intro ht
         rw [if_neg (by rw [ht]; simp)]
         split
@@ -767,7 +953,7 @@ theorem scanTask_spec (g : Nat) (hg : 1 ≤ g) (o : Oracle) (L : Nat) :
           obtain ⟨hv, hfl⟩ := hnr hnr'
           have := children body isFinal c none hdiv hb hb0 hv hfl
           rw [hv]
-          exact ⟨this, rfl, fun h => by rw [hnr'] at h; cases h⟩
+          exact ⟨this, kids_zombie .., fun h => by rw [hnr'] at h; cases h⟩
 
 /-- **parallel_scan, every oracle.** -/
 theorem scan_spec (g : Nat) (hg : 1 ≤ g) (o : Oracle) (lo hi : Nat) (hle : lo ≤ hi) : ScanOK lo hi (scan g o lo hi) := by
